@@ -30,6 +30,11 @@ Generator grammar over an INDEPENDENT reading of the schema XML (rt/c01_schema.p
       the top-level tags of one top-level group, with each kind of remainder (Def, inner group, both).  Rule: at most one such
       tag per group, except Delay next to exactly one of Duration / Onset / Offset / Inset -> TAG_GROUP_ERROR otherwise
       (clause C01.group.multiple_top_level_tags); the permitted pairs with their fitting remainder are valid.
+  part "twin": every reserved-tag group G that is valid at top level (Onset / Offset / Inset / Duration / Delay pairs, Event-context,
+      and a Definition group), standing correctly at top level AND once more -- identical text, a respelling, or a slightly different
+      copy (control) -- one and two levels down inside another top-level group, in both orders.  The nested copy is misplaced whether
+      or not an equal group exists elsewhere: the placement code is reported (clause C01.group.misplaced), and the error codes equal
+      those of the same string whose top-level copy is made textually different (relational).
   part "witness": fixed minimal inputs for the narrow clauses (defects seen at design time) and their neighbours.
   part "values" (rt/c01_values.py): the lexical rule of each value class on EVERY short string: all strings of length <= 4
       (thorough: 5) over '05+-.eEx ' as the value of a numeric tag without units, of a unit tag with its unit and of Duration
@@ -1132,6 +1137,108 @@ def part_timing(w, run, model, vocab, defs):
 
 
 # =====================================================================================================
+# part "twin": a misplaced reserved-tag group next to an EQUAL, correctly placed copy of itself
+# =====================================================================================================
+TWIN_SUBST = (("Def/" + DEF_PLAIN, "Def/" + DEF_VALUE + "/4"), ("Def/" + DEF_VALUE + "/3", "Def/" + DEF_VALUE + "/4"),
+              ("Duration/3 s", "Duration/4 s"), ("Delay/2 s", "Delay/5 s"), ("Green", "Ellipse"), ("Triangle", "Rectangle"))
+
+
+def twin_controls(grp):
+    """slightly different, still rule-conforming copies of a reserved-tag group: one leaf (not inside a Def-expand group)
+    replaced by a leaf of the same kind (another value / another declared Def / another plain tag)"""
+    out = []
+
+    def rec(items, rebuild):
+        if any(isinstance(x, str) and x.startswith("Def-expand/") for x in items):
+            return
+        for i, x in enumerate(items):
+            if isinstance(x, list):
+                rec(x, lambda new, i=i, items=items, rebuild=rebuild: rebuild(items[:i] + [new] + items[i + 1:]))
+            else:
+                for old, new in TWIN_SUBST:
+                    if x == old:
+                        out.append(rebuild(items[:i] + [new] + items[i + 1:]))
+    rec(grp, lambda new: new)
+    return out
+
+
+def twin_wrappers(g):
+    """(items holding g one level down, items holding g two levels down): g inside ordinary groups, alone / with a tag before /
+    with a group after"""
+    one = [[g], ["Square", g], [g, ["Item"]]]
+    two = [[[g]], [["Square", g]], ["Item", ["Square", g]], [[g, ["Item"]], "Circle"]]
+    return one, two
+
+
+def part_twin(w, run, model, vocab, defs):
+    """Placement rules speak about WHERE a group stands, not about what else the string holds: a reserved-tag group that is
+    nested inside another group is misplaced whether or not the same string also holds an equal group at top level.
+    For every reserved-tag group G that is valid at top level: G at top level plus, in another top-level group, a copy of G one
+    and two levels down -- the copy being the identical text, a respelling (long form / upper case: the same tags), or a
+    slightly different group (control); the top-level one before and after.  Oracle (a) from the rule table: the placement
+    code of the rule is reported (TAG_GROUP_ERROR, with TEMPORAL_TAG_ERROR for the temporal tags; DEFINITION_INVALID for
+    Definition); (b) relational: the error codes are those of the same string in which the TOP-LEVEL copy is replaced by the
+    slightly different group (so nothing equal to the nested one exists elsewhere)."""
+    before = run.n
+    has_top = {n.name for n in model.nodes if n.has("topLevelTagGroup")}
+    a, b = defs["plain"]
+    groups = [(kind, grp, "group", None if kind == "event-context" else "temporal")
+              for kind, grp, top in special_groups(model, defs) if top]
+    if "Definition" in has_top:
+        # a Definition group is DEFINITION_INVALID in an event annotation wherever it stands; nested it is misplaced as well
+        groups.append(("definition", ["Definition/Cnewdef", [a]], "definition", None))
+        TWIN_SUBST_DEF = [["Definition/Cnewdeg", [a]], ["Definition/Cnewdef", [b]]]
+    k = 0
+    for kind, grp, rule, also in groups:
+        controls = TWIN_SUBST_DEF if kind == "definition" else twin_controls(grp)
+        assert controls, kind
+        if kind != "definition":
+            run.valid(render([grp]), rule="valid-twin-base")
+            for c in controls:
+                run.valid(render([c]), rule="valid-twin-control")
+            # two equal groups side by side at top level are a repeated group
+            run.invalid(render([grp, grp]), "repeat", CL_REPEAT)
+            run.invalid(render([grp, "Square", respelled_group(model, grp, 1)]), "repeat", CL_REPEAT)
+        nested_copies = [("identical", grp), ("respelled", respelled_group(model, grp, 0)),
+                         ("respelled", respelled_group(model, grp, 1))]
+        nested_copies += [("control", c) for c in controls[:2]]
+        one, two = twin_wrappers("@")
+        for depth, wrappers in ((1, one), (2, two)):
+            for wi in range(len(wrappers)):
+                for ckind, copy in nested_copies:
+                    wrapper = twin_wrappers(copy)[depth - 1][wi]
+                    for order in (0, 1):
+                        k += 1
+                        variants = []      # the string with the equal top-level copy, then with each different top-level group
+                        for top in [grp] + controls[:2]:
+                            if ckind == "control" and top is not grp and top == copy:
+                                continue
+                            items = [top, wrapper] if order == 0 else [wrapper, top]
+                            if k % 3 == 0:
+                                items = items[:1] + ["Ellipse"] + items[1:]
+                            variants.append(render(items))
+                        verdicts = []
+                        for text in variants:
+                            for ph in (False, True):
+                                errs, inp = run._obs(text, ph, CL_GROUP, "twin:%s:%s:depth%d" % (kind, ckind, depth))
+                                if errs is None:
+                                    continue
+                                exp = {"contains": [CODE[rule]] + ([CODE[also]] if also else [])}
+                                w.check(all(c in errs for c in exp["contains"]), CL_GROUP, inp, observed=errs, expected=exp)
+                                if not ph:
+                                    verdicts.append((text, errs))
+                        # relational: the verdict does not depend on whether the top-level group equals the nested one
+                        for text, errs in verdicts[1:]:
+                            if errs != verdicts[0][1]:
+                                inp = {"schema": run.env.version, "text": verdicts[0][0], "allow_placeholders": False,
+                                       "rule": "twin-relational:%s:%s:depth%d" % (kind, ckind, depth),
+                                       "definitions": run.env_defs, "control_text": text}
+                                w.fail(CL_GROUP, inp, observed=verdicts[0][1],
+                                       expected={"contains": [CODE[rule]], "equals_codes_of_control": errs})
+    return run.n - before
+
+
+# =====================================================================================================
 def part_witness(w, run, model, vocab, defs):
     """minimal fixed inputs for the narrow clauses (defects seen at design time) and their passing neighbours"""
     before = run.n
@@ -1187,6 +1294,8 @@ def _task(args):
         n = part_witness(w, run, model, vocab, defs)
     elif part == "timing":
         n = part_timing(w, run, model, vocab, defs)
+    elif part == "twin":
+        n = part_twin(w, run, model, vocab, defs)
     elif part == "values":
         from rt.c01_values import part_values
         n, run.counts, extra["bounds"] = part_values(w, env, model, defs["strings"], chunk, nchunks)
@@ -1225,11 +1334,12 @@ def run(w: Workload):
         tasks += [(w.tier, w.seed, v, "values", c, xchunks) for c in range(xchunks)]
         if v >= "8.2.0":
             tasks += [(w.tier, w.seed, v, "timing", 0, 1)]
+            tasks += [(w.tier, w.seed, v, "twin", 0, 1)]
     versions = value_versions
     ctx = multiprocessing.get_context("fork")
     with ctx.Pool(min(14, len(tasks))) as pool:
         results = pool.map(_task, tasks, chunksize=1)
-    order = ["witness", "vocabulary", "grammar", "values", "timing"]
+    order = ["witness", "vocabulary", "grammar", "values", "timing", "twin"]
     results.sort(key=lambda r: (versions.index(r["version"]), order.index(r["part"]), r["chunk"]))
     agg = {}
     for r in results:
@@ -1259,6 +1369,13 @@ def run(w: Workload):
                          "Definition, Event-context; repeated bases with different values and spellings) in one top-level group "
                          "x %s remainders (Def, inner group, both, none) in rotating member layouts and contexts" %
                          ("2 of 4 (all 4 when a base repeats)" if w.quick else "all 4"),
+                   exhaustive=True, per_clause=a["counts"])
+        elif part == "twin":
+            w.part("twin[%s]" % version, cases=a["cases"],
+                   bound="every reserved-tag group of the grammar part that is valid at top level (Onset / Offset / Inset / Duration / "
+                         "Delay pairs / Event-context, plus a Definition group) x {identical, 2 respellings, 2 slightly different "
+                         "copies} nested in 3 wrappers one level down and 4 wrappers two levels down x top-level copy before / after x "
+                         "top-level copy {equal, 2 slightly different}; verdict = placement code, and equal to the control's",
                    exhaustive=True, per_clause=a["counts"])
         elif part == "values":
             w.part("values[%s]" % version, cases=a["cases"],
@@ -1314,6 +1431,14 @@ def replay(w: Workload, case: dict):
     exp = case.get("expected")
     if isinstance(exp, dict) and exp.get("nonempty"):
         if errs == []:
+            w.fail(clause, inp, observed=errs, expected=exp)
+    elif isinstance(exp, dict) and isinstance(exp.get("contains"), list):       # part "twin"
+        ok = all(c in errs for c in exp["contains"])
+        if ok and inp.get("control_text"):
+            errs_c, exc_c = env.observe(inp["control_text"], inp["allow_placeholders"])
+            exp = dict(exp, equals_codes_of_control=errs_c if exc_c is None else exc_c)
+            ok = exc_c is None and errs_c == errs
+        if not ok:
             w.fail(clause, inp, observed=errs, expected=exp)
     elif isinstance(exp, dict) and "contains_one_of" in exp:
         if not any(c in errs for c in exp["contains_one_of"]) or (exp.get("contains") and exp["contains"] not in errs):
